@@ -271,7 +271,7 @@ def to_model(data_file: typing.IO, _config = None, progress_callback=lambda _: N
         div.push_child(current_p)
         subtitle_text = ""
 
-      subtitle_text += line
+      subtitle_text += line.rstrip("\r\n") + "\n"
 
       state = _State.TEXT_MORE
 
